@@ -220,8 +220,21 @@ func checkC13(c *Ctx) {
 				}
 			}
 		}
-		r.Check(callsProcess && okVal, "C13.timeout-guard", "height-writer:"+fname(f), p.Pos(f.Pos()), "the observed height is written by the apply function with the event's external height",
-			sprintf("the observed external height is written outside the apply function or not from the event's height (apply fn=%v, value from event=%v)", callsProcess, okVal))
+		// and only behind the quorum test and the next-nonce test
+		okQ := true
+		quorum := ana.AtomCallBool(func(call *ssa.Call, d ana.CalleeDesc) bool {
+			if d.Recv != "Int" || (d.Name != "GTE" && d.Name != "GT") || len(call.Call.Args) != 2 {
+				return false
+			}
+			return p.Leaves(call.Call.Args[0], ana.PVOpt{}).HasCall("StakingKeeper.GetLastValidatorPower") && p.Leaves(call.Call.Args[1], ana.PVOpt{}).HasCall("StakingKeeper.GetLastTotalPower")
+		}, true)
+		for _, e := range ws[f] {
+			if !ana.Guarded(e.At, quorum) {
+				okQ = false
+			}
+		}
+		r.Check(callsProcess && okVal && okQ, "C13.timeout-guard", "height-writer:"+fname(f), p.Pos(f.Pos()), "the observed height is written by the apply function with the event's external height, behind the quorum test",
+			sprintf("the observed external height is written outside the apply function, not from the event's height, or before the quorum test (apply fn=%v, value from event=%v, behind quorum=%v): an unconfirmed claim could time out every pending batch", callsProcess, okVal, okQ))
 	}
 	// exact delete
 	c.checkBatchExecutedAs("C13.exact-delete", reach)
